@@ -10,6 +10,8 @@ use std::collections::{BTreeMap, BTreeSet};
 use std::sync::{Arc, Mutex};
 
 pub const ROOT: &str = "/sim/db";
+/// set per run from the plan: panics contained by the worker loop are the expected fate of failing requests
+pub static FAILING_REQUESTS_EXPECTED: std::sync::atomic::AtomicBool = std::sync::atomic::AtomicBool::new(false);
 
 #[derive(Default)]
 pub struct Shared {
@@ -154,6 +156,7 @@ pub struct HistoryOutcome {
 pub fn history_body(plan: &Plan, out: Arc<Mutex<Option<HistoryOutcome>>>) {
     let mut env = Env::new(ROOT, plan.opts.clone());
     env.strict_types = plan.strict_types;
+    env.contained_panics_violate = plan.knob("failing_requests_expected", 0) == 0;
     let mut unflushed = 0usize;
     let mut maintenance = 0u64;
     let mut sig = 0xcbf29ce484222325u64;
@@ -340,6 +343,7 @@ fn search_columns(env: &mut Env, table: &str, pattern: &str, ctx: &str) {
 /// Run a sequential-history plan in one simulated execution.
 pub fn run_history(plan: &Plan) -> RunResult {
     let t0 = std::time::Instant::now();
+    FAILING_REQUESTS_EXPECTED.store(plan.knob("failing_requests_expected", 0) != 0, std::sync::atomic::Ordering::SeqCst);
     let out: Arc<Mutex<Option<HistoryOutcome>>> = Arc::new(Mutex::new(None));
     let out2 = out.clone();
     let p2 = plan.clone();
@@ -445,6 +449,9 @@ pub fn push_panic_violations(panics: &[rt::core::PanicRec], violations: &mut Vec
         if i > 0 && (p.message.contains("PoisonError") || p.message.contains("Canceled")) {
             continue;
         }
+        if p.contained && FAILING_REQUESTS_EXPECTED.load(std::sync::atomic::Ordering::SeqCst) {
+            continue;
+        }
         let class = format!("panic:{}:{}", file_of(&p.location), stem(&p.message));
         if !violations.iter().any(|v| v.class == class) {
             violations.push(Violation { class, detail: format!("[{context}] thread {} panicked at {}: {}", p.role, p.location, rt::core::truncate(&p.message, 300)) });
@@ -456,7 +463,7 @@ pub fn push_panic_violations(panics: &[rt::core::PanicRec], violations: &mut Vec
 /// which is reported under its own class.
 pub fn drop_echoes(violations: &mut Vec<Violation>) {
     if violations.iter().any(|v| v.class.starts_with("panic:") || v.class.starts_with("hang_after_panic:")) {
-        violations.retain(|v| !v.class.starts_with("read_failed:Canceled"));
+        violations.retain(|v| !v.class.contains("read_failed:Canceled") && !v.class.starts_with("concurrent_query_failed:Canceled"));
     }
 }
 
